@@ -1,15 +1,18 @@
 (* C20 - Raising the fuzz limit never breaks or changes a push that already succeeded.
+   Push level (C20_push): on the L3 model, a push that applies its whole range with limit F leaves the same file
+   system and the same exit status with every larger limit - for every configuration with backup mode never or
+   onfail (with `always` the backup phase also walks the reports, whose recorded limit differs: left to the runs).
    File-patch level: if FilePatch::apply with limit F applied every hunk, then with every limit
    F' >= F it produces the same file (content, existence, permissions), the same hunk reports and
    the same undo information.  No well-formedness needed: the statement is about the loop structure. *)
-From Coq Require Import List ZArith Bool.
+From Coq Require Import List ZArith NArith Bool String.
 Import ListNotations.
-From RQ Require Import Base Apply FuzzProofs.
+From RQ Require Import Base Apply FuzzProofs Parser Quilt FuzzPush.
 Local Open Scope Z_scope.
 
 Theorem C20_file :
   forall (line : Type) (line_eqb : line -> line -> bool)
-         (fp : fpatch line) (mf : mfile line) d F F' mf' rep,
+         (fp : Apply.fpatch line) (mf : Apply.mfile line) d F F' mf' rep,
     (F <= F')%nat -> apply line line_eqb fp mf d F = Ok (mf', rep) -> r_failed rep = false ->
     exists rep', apply line line_eqb fp mf d F' = Ok (mf', rep') /\ r_failed rep' = false /\
                  r_prev_perm rep' = r_prev_perm rep /\ r_prev_deleted rep' = r_prev_deleted rep /\
@@ -20,7 +23,7 @@ Print Assumptions C20_file.
 
 (* the level loop: levels after the first success are never looked at *)
 Theorem C20_levels_extend :
-  forall (line : Type) (line_eqb : line -> line -> bool) h d idx (mf : mfile line) off frozen count count' lo cur r v,
+  forall (line : Type) (line_eqb : line -> line -> bool) h d idx (mf : Apply.mfile line) off frozen count count' lo cur r v,
     (count <= count')%nat ->
     try_levels line line_eqb h d idx mf Normal off frozen lo count cur = Ok (r, Some v) ->
     try_levels line line_eqb h d idx mf Normal off frozen lo count' cur = Ok (r, Some v).
@@ -38,3 +41,27 @@ Example C20_witness :
   | _, _, _ => False
   end.
 Proof. vm_compute. repeat split; reflexivity. Qed.
+
+Theorem C20_push :
+  forall cfg db g fs fs' F',
+  (c_fuzz cfg <= F')%nat -> c_backup cfg <> Params.Always ->
+  cmd_push cfg db g fs = (fs', ROk true) ->
+  cmd_push (with_fuzz cfg F') db g fs = (fs', ROk true).
+Proof. exact push_fuzz_mono. Qed.
+Print Assumptions C20_push.
+
+(* non-vacuity at push level: a hunk that needs fuzz 1 *)
+Definition nl := String (Ascii.ascii_of_nat 10) EmptyString.
+Definition c20_fs : fsys :=
+  {| fs_files := [([b "series"], {| f_data := b ("p" ++ nl)%string; f_mode := 420%N |});
+                  ([b "f"], {| f_data := b ("x" ++ nl ++ "b" ++ nl ++ "c" ++ nl)%string; f_mode := 420%N |})];
+     fs_dirs := []; fs_log := []; fs_fault := None; fs_fired := false |}.
+Definition c20_db : patches_db :=
+  [(b "p", b ("--- a/f" ++ nl ++ "+++ b/f" ++ nl ++ "@@ -1,3 +1,3 @@" ++ nl ++ " a" ++ nl ++ " b" ++ nl ++ "-c" ++ nl ++ "+C" ++ nl)%string)].
+Definition c20_cfg (F : nat) : config :=
+  {| c_fuzz := F; c_backup := Params.OnFail; c_backup_count := BLast 100; c_dry_run := false; c_default_mode := 420%N; c_preload := false |}.
+Example C20_push_witness :
+  snd (cmd_push (c20_cfg 0) c20_db GAll c20_fs) = ROk false /\
+  snd (cmd_push (c20_cfg 1) c20_db GAll c20_fs) = ROk true /\
+  cmd_push (c20_cfg 3) c20_db GAll c20_fs = cmd_push (c20_cfg 1) c20_db GAll c20_fs.
+Proof. vm_compute. auto. Qed.
